@@ -187,7 +187,7 @@ OPT_LEAN = {'session': 'session', 'collation': 'collation', 'array_filters': 'ar
             'let': 'let_', 'hint': 'hint'}
 
 
-def emit_options(entries, known_silent, known_optout):
+def emit_options(entries, known_silent, known_optout, pairs=()):
     """entries: extract_options.probe_options(); known_*: lists of (cls, method, option)"""
     probed = [e for e in entries if e['disp'] != 'unprobed']
     methods = []
@@ -229,5 +229,25 @@ def emit_options(entries, known_silent, known_optout):
     out.append('/-- known findings: options that still raise after ignore_feature: %s -/'
                % comment_safe(', '.join('%s.%s(%s)' % k for k in known_optout)))
     out.append('def knownOptOutIneffective : List (Nat × Opt) := %s\n' % keys(known_optout))
+    plines = []
+    for e in sorted(pairs, key=lambda e: (mid.get((e['cls'], e['method']), -1),
+                                          extract_options.OPTIONS.index(e['a']),
+                                          extract_options.OPTIONS.index(e['b']), e['aOptedOut'])):
+        if (e['cls'], e['method']) not in mid:
+            continue
+        plines.append('  ⟨%d, .%s, .%s, %s, %s, .%s⟩' % (
+            mid[(e['cls'], e['method'])], OPT_LEAN[e['a']], OPT_LEAN[e['b']],
+            _lean_bool(e['write']), _lean_bool(e['aOptedOut']), e['disp']))
+    out.append('/-- both options present: ⟨mid, a, b, write, a opted out, observed⟩ (b is never opted '
+               'out) -/')
+    nch = 0
+    for i in range(0, len(plines), 150):
+        out.append('def optionPairs_%d : List OptPair := [\n%s]\n' % (
+            nch, ',\n'.join(plines[i:i + 150])))
+        nch += 1
+    out.append('def optionPairChunks : List (List OptPair) := [%s]\n' % ', '.join(
+        'optionPairs_%d' % i for i in range(nch)))
+    out.append('/-- %d pair probes -/\ndef optionPairs : List OptPair := optionPairChunks.flatten\n'
+               % len(plines))
     out.append('end Generated\n')
     return '\n'.join(out)
